@@ -328,20 +328,38 @@ def process_case(rng, tier):
             (["cnfgen", "-h"], 0), (["cnfgen", "php", "3", "2", "-T", "nosuch"], 255), (["pbgen", "php"], 255),
             (["cnfgen", "-of", "latex", "op", "x"], 255), (["cnfgen", "peb", "kthlist", "/"], 255),
             (["cnfgen", "php", "kthlist", "/"], 255), (["cnfgen", "peb", "pyramid", "2", "save", "kthlist", "/"], 255)]
-    if tier == "thorough":
-        cmds = cmds * 1
+    dim = b"p cnf 3 2\n1 -2 0\n2 3 0\n"
+    # the `dimacs` sub-command reading a PIPE (not seekable), for every output format, alone and transformed
+    piped = [(["cnfgen"] + fmt + ["dimacs"] + t, dim) for fmt in ([], ["-of", "opb"], ["-of", "latex"], ["-l"], ["-q"])
+             for t in ([], ["-T", "xor", "2"])]
+    piped += [(["pbgen", "dimacs"], dim), (["pbgen", "-of", "latex", "dimacs"], dim)]
 
-    def run(c):
+    def run(c, data=None):
         argv, want = c
         mod = {"cnfgen": "cnfgen.clitools.cnfgen", "pbgen": "cnfgen.clitools.pbgen"}[argv[0]]
         env = dict(os.environ, PYTHONPATH=common.REPO, PYTHONWARNINGS="ignore")
-        p = subprocess.run([sys.executable, "-m", mod] + argv[1:], stdin=subprocess.DEVNULL, stdout=subprocess.PIPE,
-                           stderr=subprocess.PIPE, env=env, timeout=120)
+        if data is None:
+            p = subprocess.run([sys.executable, "-m", mod] + argv[1:], stdin=subprocess.DEVNULL, stdout=subprocess.PIPE,
+                               stderr=subprocess.PIPE, env=env, timeout=120)
+        else:
+            p = subprocess.run([sys.executable, "-m", mod] + argv[1:], input=data, stdout=subprocess.PIPE,
+                               stderr=subprocess.PIPE, env=env, timeout=120)
         return argv, want, p.returncode, p.stdout.decode(errors="replace"), p.stderr.decode(errors="replace")
 
     def oracle():
         with ThreadPoolExecutor(8) as ex:
             results = list(ex.map(run, cmds))
+            piped_results = list(ex.map(lambda a: run((a[0], 0), a[1]), piped))
+        for argv, want, rc, out, err in piped_results:
+            if "Traceback" in err:
+                return {"process": argv, "stdin": "piped DIMACS", "traceback": err[-400:]}
+            if rc != 0 or not out.strip():
+                return {"process": argv, "stdin": "piped DIMACS", "exit_status": rc, "stdout_empty": not out.strip(),
+                        "why": "a legal request ended without a formula", "stderr": err[-300:]}
+            if "latex" not in argv and "-l" not in argv:
+                bad = strict_opb(out) if ("opb" in argv or argv[0] == "pbgen") else strict_dimacs(out)
+                if bad:
+                    return {"process": argv, "stdin": "piped DIMACS", "why": bad, "stdout": out[:200]}
         for argv, want, rc, out, err in results:
             if "Traceback" in err:
                 return {"process": argv, "traceback": err[-400:]}
